@@ -35,6 +35,8 @@ structure DState where
   raw : Db := []
   legacyRegex : Bool := false
   viaGrpc : Bool := false
+  /-- the passphrase each configured account is encrypted with (by "wallet/name"): what an explicit Unlock must present -/
+  passOf : List (String × String) := []
   inst : Inst := { cfg := {} }
   -- judge state
   jvotes : List (Bytes × Spec.Vote) := []
@@ -184,7 +186,8 @@ def dstepCore (st : DState) (line : String) : DState × Option String :=
   | ["acct", w, n, pk, u] =>
     match unhexStr w, unhexStr n, unhex pk with
     | some w, some n, some pk =>
-      ({ st with accounts := st.accounts ++ [{ wallet := w, name := n, pubkey := pk, unlockable := u == "1" || u == "2" || u.startsWith "d" }] }, none)
+      ({ st with accounts := st.accounts ++ [{ wallet := w, name := n, pubkey := pk, unlockable := u == "1" || u == "2" || u.startsWith "d" }],
+                 passOf := st.passOf ++ [(w ++ "/" ++ n, if u == "0" then "unknown-passphrase" else if u == "2" then "pass2" else "pass")] }, none)
     | _, _, _ => bad st line
   | ["perm", c, p, ops] =>
     match unhexStr c, unhexStr p with
@@ -228,6 +231,29 @@ def dstepCore (st : DState) (line : String) : DState × Option String :=
       let names := sortStrings ((listAccounts st.inst.cfg c ps).map (fun a => hexStr (a.wallet ++ "/" ++ a.name)))
       (st, some ("S " ++ (if names.isEmpty then "-" else ",".intercalate names)))
     | _, _ => bad st line
+  -- account manager: Lock / Unlock an account (by name).  Lock: permission on the account, no effect the signer can see (the
+  -- unlocker re-unlocks an account whose passphrase it knows, and the wallet library keeps a decrypted key).  Unlock: the
+  -- presented passphrase must be the account's; from then on the account can sign.
+  | ["lockacct", c, acct] =>
+    match unhexStr c, unhexStr acct with
+    | some c, some acct =>
+      match fetchByName st.inst.cfg acct with
+      | none => (st, some "D")
+      | some a => (st, some (if check st.inst.cfg.access c (a.wallet ++ "/" ++ a.name) opLockAccount then "S" else "D"))
+    | _, _ => bad st line
+  | ["unlockacct", c, acct, pass] =>
+    match unhexStr c, unhexStr acct, unhexStr pass <|> (if pass == "." then some "" else none) with
+    | some c, some acct, some pass =>
+      match fetchByName st.inst.cfg acct with
+      | none => (st, some "D")
+      | some a =>
+        let path := a.wallet ++ "/" ++ a.name
+        if !check st.inst.cfg.access c path opUnlockAccount then (st, some "D")
+        else if st.passOf.lookup path != some pass then (st, some "D")
+        else
+          let accts := st.inst.cfg.accounts.map (fun x => if x.wallet == a.wallet && x.name == a.name then { x with unlockable := true } else x)
+          ({ st with inst := { st.inst with cfg := { st.inst.cfg with accounts := accts } } }, some "S")
+    | _, _, _ => bad st line
   | ["create", c, acct] =>
     match unhexStr c, unhexStr acct with
     | some c, some acct =>
